@@ -356,7 +356,7 @@ def test_product():
     check("paths", M.PATHS, ["lit", "lit_bs", "pyformat", "qmark", "insert_select", "ctas", "clone", "insert_select_cast", "ctas_cast", "wp", "wp_dbschema", "wp_subset", "wp_auto", "wp_opts"])
     A = M.allowed
     check("-0.0 not as SQL text", [A(T("FLOAT"), p, "neg_zero", -0.0) for p in M.PATHS],
-          [False, False, False, False, True, True, True, True, True, True, True, True])
+          [False, False, False, False, True, True, True, True, True, True, True, True, True, True])
     check("year 1 not via pyformat", A(T("DATE"), "pyformat", "year1", dt.date(1, 1, 1)), False)
     check("year 1 via literal", A(T("DATE"), "lit", "year1", dt.date(1, 1, 1)), True)
     check("tz not via qmark", M.type_applies(T("TIMESTAMP_TZ"), "qmark"), False)
